@@ -154,6 +154,10 @@ def install(I):
             if ok and off.const is not None:
                 raw, ptrs = I.alloc_bytes(aid)
                 val = Vec(rt, [cint(8, x) for x in raw[off.const:off.const + n]])
+            elif ok and T.ENABLED and off.term is not None:
+                # a table lookup at a data-dependent offset: an uninterpreted function of the offset
+                I.obligation(frame, 'simd-load-bounds', what, 0, False, '')
+                return Vec(rt, [TOPB] * 16, T.op('vtbl:' + I.alloc_name(aid), 128, off.term))
             if aligned:
                 al, _ = I.alloc(aid)
                 a_ok = (al.get('align', 1) % n == 0) and (off.kz & (n - 1)) == (n - 1)
